@@ -139,7 +139,7 @@ func (in *inst) Key() string {
 		ks = append(ks, fmt.Sprintf("%s=%s:%v", k, e.id.name, e.valid))
 	}
 	sort.Strings(ks)
-	return strings.Join(ks, " ") + "\n" + in.rm.VerifDumpFull()
+	return strings.Join(ks, " ") + "\n" + in.rm.VerifDumpFull() + "\n" + in.rm.VerifDumpAges(vsched.VNow())
 }
 
 var menu []probe
